@@ -242,6 +242,55 @@ func runC04(c *Ctx) {
 
 	c.rule("C04.P1", "the sync never wedges itself: "+lockOrderDoc, func() { c.lockOrder() })
 
+	c.rule("C04.V2", "a request for filter headers can be answered: a cfheaders message carries at most wire.MaxCFHeadersPerMsg hashes, and getCFHeadersForAllPeers accepts only answers with exactly the number it asked for; where the request is capped, the header it stops at and the stop height are both height + MaxCFHeadersPerMsg - 1, so that stopHeight - height + 1 stays within the limit (one more and no peer can ever answer: the filter header tip stops following the chain once it is more than a message behind)", func() {
+		fn := c.fn("(*neutrino.blockManager).getCFHeadersForAllPeers")
+		fetch := c.method("headerfs", "BlockHeaderStore", "FetchHeaderByHeight")
+		isH := func(v ssa.Value) bool { return ir.Strip(v) == ssa.Value(fn.Params[1]) }
+		const max = 2000 // wire.MaxCFHeadersPerMsg
+		lin := func(v ssa.Value) (int64, bool) {
+			coef, _, k, ok := linTerms(v, nil, isH)
+			if !ok || len(coef) != 1 || coef[0] != 1 {
+				return 0, false
+			}
+			return k, true
+		}
+		var bad []string
+		calls := find(fn, callTo(fetch))
+		for _, in := range calls {
+			_, a := recvAndArgs(in)
+			if k, ok := lin(a[0]); !ok || k != max-1 {
+				bad = append(bad, "the capped request stops at a header other than height + MaxCFHeadersPerMsg - 1 ("+c.at(in)+")")
+			}
+		}
+		// the count: stopHeight - height + 1 with stopHeight the store's tip or the cap
+		tip := c.method("headerfs", "BlockHeaderStore", "ChainTip")
+		nOK := 0
+		ir.Instrs(fn, func(in ssa.Instruction) {
+			p, ok := in.(*ssa.Phi)
+			if !ok {
+				return
+			}
+			fromTip, capped := false, false
+			for _, e := range p.Edges {
+				if ir.DerivesFrom(e, valIsCallTo(tip)) && !ir.DerivesFrom(e, isH) {
+					fromTip = true
+					continue
+				}
+				if k, ok := lin(e); ok {
+					capped = true
+					if k != max-1 {
+						bad = append(bad, fmt.Sprintf("the capped stop height is height%+d, not height + MaxCFHeadersPerMsg - 1 (%s)", k, c.at(in)))
+					}
+				}
+			}
+			if fromTip && capped {
+				nOK++
+			}
+		})
+		sort.Strings(bad)
+		c.verdict(len(calls) >= 1 && nOK >= 1 && len(bad) == 0, c.nm(fn)+" | a capped request spans exactly MaxCFHeadersPerMsg headers", c.P.Pos(fn.Pos()), "stop header and stop height are height + 1999", join(uniq(bad))+fmt.Sprintf(" (%d capped fetch(es), %d stop-height merge(s))", len(calls), nOK), c.ats(calls)...)
+	})
+
 	c.rule("C04.O6", "the honest peer stays reachable for queries: "+workerPerPeerDoc, func() { c.workerPerPeer() })
 
 	c.rule("C04.O1", "progress steps (each a necessary condition of convergence): losing the sync peer re-selects one; a new sync candidate triggers startSync; a selected sync peer is asked for headers; a committed headers batch updates the header tip, wakes the filter-header sync and asks for more while not current; committed filter headers wake their waiters; an accepted peer is announced to the block manager and its departure too; the subscription manager is started before the broadcaster subscribes", func() {
